@@ -1611,7 +1611,26 @@ def _passthrough(name):
             return False
 
         if builtins.any(symbolic(x) for x in a) or builtins.any(symbolic(x) for x in k.values()):
-            raise Unsupported(f"numpy.{name} on symbolic data is outside the stand-in")
+            # concolic fallback: the function is not encoded; run the real one on ONE sampled value per symbolic input (the path is
+            # marked non-exhaustive and reported as such) instead of giving the whole path up
+            why = f"numpy.{name}"
+
+            def sample(x):
+                if isinstance(x, MaskedSelection):
+                    raise Unsupported(f"numpy.{name} on a masked selection is outside the stand-in")
+                if isinstance(x, SymArray):
+                    if x.is_concrete():
+                        return x.to_numpy()
+                    vals = [core.sample_value(e, why) for e in x.elems()]
+                    return _np.array(vals, dtype=x.dtype if x.dtype.kind != "O" else float).reshape(x.shape)
+                if isinstance(x, Sym):
+                    return core.sample_value(x, why)
+                if isinstance(x, (list, tuple)):
+                    return type(x)(sample(e) for e in x)
+                return x
+
+            a = [sample(x) for x in a]
+            k = {kk: sample(x) for kk, x in k.items()}
         a = [x.to_numpy() if isinstance(x, SymArray) else x for x in a]
         k = {kk: (x.to_numpy() if isinstance(x, SymArray) else x) for kk, x in k.items()}
         r = obj(*a, **k)
